@@ -1,23 +1,56 @@
 """C06 break, continue and return always reach the target Go specifies."""
+import json
+import os
+import tempfile
+
 import vcheck as V
 
 PROPS = ["Props/C06.v"]
 
+VECTORS = ("each function is run under systematically enumerated answer vectors: all 2^m boolean vectors for its conditions "
+           "(m = number of conditions, +1 when a loop can re-evaluate them, up to 4 bits; beyond that also sampled longer vectors), "
+           "every range length in {0,1,2} per range expression, every switch tag value hitting the first and last value of each case "
+           "and the default; the product thinned to 24 (quick) / 32 (thorough) vectors per function")
+
 
 def run(chk):
     V.generic_run(chk, PROPS,
-        corr=[dict(name="ctl(Model/Ctl.v compile_ctl vs the real compiler, optimizer off, instruction for instruction incl. offsets and slots; abstract machine vs the real VM, optimizer off, trace for trace)",
+        corr=[dict(name="ctl(Model/Ctl.v compile_ctl vs the real compiler, optimizer off, instruction for instruction incl. offsets and slots; "
+                        "real VM, optimizer off, vs Go's semantics (GoSpec/GoCtl.v) and vs the abstract machine under enumerated answer vectors; "
+                        "deep search (all vectors up to 8 condition bits) on every function whose code differs from the model)",
                    cmd="c06-corr", stats="C06_corr_stats.json", n_quick=200, n_thorough=3000),
-              dict(name="gospec(GoSpec/GoCtl.v evaluator vs the traces of the same skeleton programs built with the Go toolchain)",
-                   cmd="c06-spec", stats="C06_spec_stats.json", n_quick=300, n_thorough=4000)],
-        system=[dict(name="skeleton programs vs Go toolchain (default Load path, optimizer on)", cmd="c06-script", stats="C06_script_stats.json",
-                     n_quick=7, n_thorough=40,
-                     what="control skeletons over emit(l)/c(k)/rs(k)/tg(k): every well-formed nesting of if / if-else / else-if chains (with and without init statement), for (all 8 three-clause header shapes, `for {`, `for cond {`), for-range, switch (tagged and tagless, 0..3 cases, multi-value case lists, default absent or at every position) with break, continue and return at every position, enumerated exhaustively up to 2 (quick) / 3 (thorough) control nodes and decorated with an emit before every statement and at the end of every block, then depth-bounded random skeletons; conditions, range lengths and tags computed from a call counter and a per-function seed so paths are data dependent; traces (every emit, condition, range expression and tag evaluation) compared per function with `go build` output")],
-        assumptions=["calls emit(l), c(k), rs(k), tg(k) in the abstract machine are atomic: PUSH/GLOBALGET/CALL of a user function returns to the next instruction with the operand stack restored and (for c, rs, tg) one result pushed (function calls are property C09's subject; tie: the run-level correspondence KRun compares real VM traces of whole programs)",
+              dict(name="gospec(GoSpec/GoCtl.v evaluator, and the harness's rendering of it, vs the traces of the same skeleton programs built with the Go toolchain)",
+                   cmd="c06-spec", stats="C06_spec_stats.json", n_quick=150, n_thorough=3000)],
+        system=[dict(name="skeleton programs vs Go (default Load path, optimizer on)", cmd="c06-script", stats="C06_script_stats.json",
+                     n_quick=6, n_thorough=30,
+                     what="control skeletons over emit(l)/c(k)/rs(k)/tg(k): every well-formed nesting of if / if-else / else-if chains (with and without init statement), "
+                          "for (all 8 three-clause header shapes, `for {`, `for cond {`), for-range, switch (tagged and tagless, 0..3 cases, multi-value case lists, default absent "
+                          "or at every position) with break, continue and return at every position, enumerated exhaustively up to 2 (quick) / 3 (thorough) control nodes, each with an "
+                          "emit before every statement, once with and once without an emit closing every block; the exit-tail family (then-branches and case blocks ending in return / "
+                          "break / continue directly or under a nested if / else-if / switch / default / loop, followed by an else branch, an else-if chain, another case or the default; "
+                          "at top level, in for, in range, in switch-in-for); depth-bounded random skeletons with such tails; " + VECTORS +
+                          "; every goatlang run is compared with Go's semantics (GoCtl, validated against the Go toolchain) and three runs per function with the `go build` output itself")],
+        assumptions=["calls emit(l), c(k), rs(k), tg(k) in the abstract machine are atomic: PUSH/GLOBALGET/CALL of a user function returns to the next instruction with the operand stack restored and (for c, rs, tg) one result pushed (function calls are property C09's subject; tie: the run-level correspondence KRun compares real VM traces of whole functions)",
                      "the test functions have no parameters and no locals other than the compiler temporaries of range (iterator + blank key/value slot) and tagged switch (tag slot); lookup hands out slots by a counter that never decreases inside a function (checked instruction for instruction by KCode)",
                      "optimizer off in the theorems (the optimized path is property C02; the system-level differential runs with the optimizer on)",
-                     "Go semantics of skeleton programs = GoSpec/GoCtl.v (validated on every run against the installed Go toolchain: KSem cases)"])
+                     "Go semantics of skeleton programs = GoSpec/GoCtl.v (validated on every run against the installed Go toolchain: KSem cases; the harness's Go rendering of it is validated against the toolchain traces and, where a failing input is reported, by a KRef case)"])
 
 
 def replay(path):
-    return V.generic_replay(path)
+    """prints the stored records and re-runs the first failing program with goatlang and the Go toolchain"""
+    V.generic_replay(path)
+    data = json.load(open(path))
+    for rec in data.get("failing_inputs", [])[:1]:
+        if isinstance(rec, dict) and rec.get("src"):
+            with tempfile.NamedTemporaryFile("w", suffix=".go", delete=False) as f:
+                f.write(rec["src"])
+            rc, out = V.harness(["probe", "-file", f.name])
+            os.unlink(f.name)
+            print(out[-3000:])
+            exp = "\n".join(rec.get("expected_trace", []))
+            go_part = out.split("--- goat")[0]
+            goat_part = out.split("--- goat")[-1].split("\n", 1)[-1] if "--- goat" in out else ""
+            same = goat_part.strip() == go_part.split("\n", 1)[-1].strip()
+            print("replay: goatlang and the Go toolchain %s on this program" % ("AGREE" if same else "DISAGREE"))
+            return 0 if same else 1
+    return 0
